@@ -73,7 +73,8 @@ pub fn refactor_lib_opts(rng: &mut Rng, tier: Tier, subdirs: bool, cell_links: b
     o.profile.max_blocks = tier.pick(9, 14);
     o.profile.max_depth = 3;
     o.profile.html_blocks = false;
-    o.profile.meta = false;
+    // front matter: a refactoring rewrites whole notes and must carry it along
+    o.profile.meta = true;
     o.profile.long_lists = 0;
     o.self_links = false;
     o.crlf = false;
@@ -252,6 +253,16 @@ impl Check for Refactor {
                         judge_c10(&kind, &lib, &after, key, line, text, &scan)
                     };
                     let mut v = v;
+                    // every note that exists before and after keeps its front matter
+                    for (k, t) in &lib {
+                        if let Some(ta) = after.get(k) {
+                            let (mb, ma) = (mdscan::scan(t).meta, mdscan::scan(ta).meta);
+                            if mb.as_ref().map(|m| m.trim_end().to_string()) != ma.as_ref().map(|m| m.trim_end().to_string()) {
+                                v.push(("front-matter-lost".to_string(), format!("note {}: front matter {:?} -> {:?}", k, mb, ma)));
+                                break;
+                            }
+                        }
+                    }
                     if v.is_empty() {
                         v.extend(round_trip(&kind, &lib, &after, key, line, text, &scan, &mut rep));
                     }
